@@ -14,7 +14,7 @@ for kind, k in keys:
     bad = [o for o in d["obligations"] if o["status"] != "unsat"]
     print(f"{k}: paths={d['paths']} obl={len(d['obligations'])} bad={len(bad)} gen={d['gen_s']} solve={d['solve_s']}")
     if d.get("out_of_reach"):
-        print("   OOR:", d["out_of_reach"])
+        print("   OOR:", str(d["out_of_reach"])[:400])
     seen = set()
     for o in bad:
         key = (o["kind"], o["label"])
